@@ -43,8 +43,9 @@ func TestMain(m *testing.M) {
 			"the harness playing the replicator including the discard on 'replica precommit state diverged'. " +
 			"Concurrent pullers: 2-8 replica stores of one primary, each fed by its own goroutine (ExportTx on the primary, ReplicateTx with retries of the same bytes), some starting empty while others follow the tip, some with skipIntegrityCheck, " +
 			"0-2 further export clients and the primary committing multi-entry transactions with small distinct values meanwhile; every export is compared with the committed transaction, a refusal repeated 3 times is a stuck replica, every replica must end with the primary's ids, Alh, entries and values (ReadValue / Get). " +
+			"Durable acknowledgement: a synced replica store with external commit allowance on the recording appendables of internal/fsim (slow fsync of the tx log), 1-3 feeders and a poller of PrecommittedAlh: every reported (id, Alh) is the primary's and the tx-log record of id was followed by a completed fsync before the answer was obtained. " +
 			"NON-TRIVIAL (store level): the schedule of at least one replica contains >=1 out-of-order or duplicated delivery AND >=1 refused delivery followed by a successful catch-up; " +
-			"(database level): at least one step at which fewer than syncAcks replicas held a transaction the primary had precommitted; (concurrent pullers): at least two goroutines export from the primary at the same time; (primary switch): the stale replica's uncommitted tail lies at or below the new primary's commit point when it connects. DISTINCT by hash of (configurations, history shape, schedule).",
+			"(database level): at least one step at which fewer than syncAcks replicas held a transaction the primary had precommitted; (durable acknowledgement): at least two distinct durable ids were observed while deliveries were in flight; (concurrent pullers): at least two goroutines export from the primary at the same time; (primary switch): the stale replica's uncommitted tail lies at or below the new primary's commit point when it connects. DISTINCT by hash of (configurations, history shape, schedule).",
 		Assumptions: []string{
 			"SHA-256 is collision resistant: equal Alh / Eh means equal header and entry digests (values are compared byte by byte in addition)",
 			"an export is delivered to ReplicateTx either honest or altered by the harness; with skipIntegrityCheck=true an altered export may be accepted (that is what the flag means): only 'no effect when refused' and the internal consistency of the replica are asserted then, and the replica is treated as diverged",
